@@ -343,8 +343,84 @@ def _scalar(x):
     return float(np.asarray(x).ravel()[0])
 
 
-def bind(name, opt, A, tmp):
+def bind_axes(name, ax, A, tmp):
+    """the real call for an option VECTOR (Frame.tla FrOptAxes): ax = dict axis name -> value name"""
+    import esutil
+    from esutil import coords, stat
+    on = lambda a: ax[a] == "on"   # noqa
+    short = name.split(".")[1] if "." in name else name
+    if name in ("coords.eq2gal", "coords.gal2eq", "coords.eq2ec", "coords.ec2eq", "coords.ec2gal", "coords.gal2ec"):
+        fn = getattr(coords, short)
+        return lambda: fn(A["lon"], A["lat"], b1950=on("b1950"), dtype=ax["dtype"])
+    if name == "coords.euler":
+        return lambda: coords.euler(A["ai"], A["bi"], int(ax["select"]), b1950=on("b1950"), dtype=ax["dtype"])
+    if name == "coords.eq2xyz":
+        return lambda: coords.eq2xyz(A["ra"], A["dec"], dtype=ax["dtype"], units=ax["units"], stomp=on("stomp"))
+    if name == "coords.xyz2eq":
+        return lambda: coords.xyz2eq(A["x"], A["y"], A["z"], units=ax["units"], stomp=on("stomp"))
+    if name in ("coords.shiftlon", "coords.shiftra"):
+        fn = getattr(coords, short)
+        shift = {"none": None, "pos": 30.0, "neg": -30.0}[ax["shift"]]
+        return lambda: fn(A["lon"] if "lon" in A else A["ra"], shift=shift, wrap=on("wrap"))
+    if name == "WCS.image2sky":
+        w = _wcs(ax["proj"])
+        return lambda: w.image2sky(A["x"], A["y"], distort=on("distort"))
+    if name == "WCS.sky2image":
+        w = _wcs(ax["proj"])
+        return lambda: w.sky2image(A["longitude"], A["latitude"], distort=on("distort"), find=on("find"))
+    if name == "WCS.get_jacobian":
+        w = _wcs(ax["proj"])
+        return lambda: w.get_jacobian(A["x"], A["y"], distort=on("distort"), step={"1": 1.0, "half": 0.5}[ax["step"]])
+    if name == "WCS.Distort":
+        w = _wcs(ax["proj"])
+        return lambda: w.Distort(A["x"], A["y"], inverse=on("inverse"))
+    if name == "WCS.Rotate":
+        w = _wcs("tan")
+        return lambda: w.Rotate(A["lon"], A["lat"], reverse=on("reverse"), origin=on("origin"))
+    if name == "stat.wmom":
+        kw = dict(calcerr=on("calcerr"), sdev=on("sdev"))
+        if ax["inputmean"] == "given":
+            kw["inputmean"] = 1.5
+        return lambda: stat.wmom(A["arr"], A["weights"], **kw)
+    if name in ("stat.sigma_clip", "stat.sigma_clip+weights"):
+        kw = dict(nsig=float(ax["nsig"]), niter=int(ax["niter"]), get_err=on("get_err"), get_indices=on("get_indices"))
+        return lambda: stat.sigma_clip(A["arr"], weights=A.get("weights"), silent=True, **kw)
+    if name in ("stat.get_stats", "stat.get_stats+weights"):
+        kw = dict(doprint=on("doprint"))
+        if ax["nsig"] != "none":
+            kw["nsig"] = float(ax["nsig"])
+        return lambda: stat.get_stats(A["arr"], weights=A.get("weights"), **kw)
+    if name in ("stat.histogram", "stat.histogram+weights"):
+        kw = {"binsize": dict(binsize=1.0), "nbin": dict(nbin=3), "nperbin": dict(nperbin=2)}[ax["bins"]]
+        if ax["range"] == "minmax":
+            kw.update(min=0.5, max=3.0)
+        kw.update(rev=on("rev"), more=on("more"))
+        if "weights" in A:
+            kw["weights"] = A["weights"]
+        return lambda: stat.histogram(A["data"], **kw)
+    if name.startswith("Cosmo."):
+        fn = getattr(_cosmo(ax["curv"] == "curved"), short)
+        if ax["form"] == "aa":
+            return lambda: fn(A["zmin"], A["zmax"])
+        if ax["form"] == "as":
+            return lambda: fn(A["zmin"], _scalar(A["zmax"]))
+        return lambda: fn(_scalar(A["zmin"]), A["zmax"])
+    if name == "HTM.match":
+        kw = dict(maxmatch=int(ax["maxmatch"]))
+        if on("file"):
+            kw["file"] = os.path.join(tmp, "pairs.dat")
+        rad = (lambda: _scalar(A["radius"])) if ax["radius"] == "scalar" else (lambda: A["radius"])
+        return lambda: _htm(MATCH_DEPTH).match(A["ra1"], A["dec1"], A["ra2"], A["dec2"], rad(), **kw)
+    raise MachineryError("no binding for the option axes of catalogue entry %r" % name)
+
+
+def bind(name, opt, A, tmp, axn=()):
     """returns a thunk that performs the real call on the arguments A (dict parameter -> array)"""
+    if opt.startswith("ax:"):
+        vals = opt[3:].split(",")
+        if len(vals) != len(axn):
+            raise MachineryError("option vector %r does not fit the axes %r of %s" % (opt, axn, name))
+        return bind_axes(name, dict(zip(axn, vals)), A, tmp)
     import esutil
     import esutil.numpy_util as nu
     from esutil import sfile, recfile, coords, stat
@@ -689,7 +765,7 @@ def run_case(args):
     try:
         A = build_args(case)
         order = [p["p"] for p in case["params"]]
-        thunk = bind(case["call"], case["opt"], A, tmp)
+        thunk = bind(case["call"], case["opt"], A, tmp, case.get("axn", ()))
         pre = [snapshot(A[p]) for p in order]
         outcome, err = "returned", ""
         with warnings.catch_warnings():
@@ -747,7 +823,7 @@ def run(ctx):
     B = BOUNDS[ctx.tier]
     fams = set(ALL_FAMILIES)
     consts = dict(Families=fams, NDims=B["NDims"], Pairwise=B["Pairwise"], ValNDims=B["ValNDims"], FixedTextWrite=True, FixedWrap=True,
-                  DoExport=False)
+                  FixedOptCopy=True, DoExport=False)
     # 1. the model: frame condition as invariant + action property, catalogue well-formed, mechanism paths refine Invoke
     ctx.tlc("FrameMC.tla", what="frame condition + argument-path mechanism refines Invoke (exhaustive)",
             cfg_text=cfg(constants=consts, invariants=["FrameHolds", "MechRefines", "CatalogueOK", "LayoutsOK"], properties=["FrameAction"]),
@@ -764,6 +840,12 @@ def run(ctx):
                               invariants=["MechRefines"]), workers=4, allow_violation=True, coverage=False)
     if "MechRefines" not in rb.violated:
         raise MachineryError("self-test failed: MechRefines not violated by the data-dependent in-place write")
+    # 1d. and for an option-guarded private copy: the write under a second option lands in the caller's array
+    rb = ctx.tlc("FrameMC.tla", what="self-test: a private copy made only under the default of one option violates MechRefines",
+                 cfg_text=cfg(constants=dict(consts, Families={"coords"}, NDims={1}, Pairwise=False, FixedOptCopy=False),
+                              invariants=["MechRefines"]), workers=4, allow_violation=True, coverage=False)
+    if "MechRefines" not in rb.violated:
+        raise MachineryError("self-test failed: MechRefines not violated by the option-guarded copy")
     # 2. export catalogue x layouts x options (spec -> code)
     r = ctx.tlc("FrameMC.tla", what="export invocations", cfg_text=cfg(constants=dict(consts, DoExport=True), next_="NextExport",
                                                                          constraints=["Export"]), workers=1, coverage=False, timeout=3000)
@@ -804,6 +886,9 @@ def run(ctx):
     ctx.note(deliberate_rejections=len(delib), deliberate_rejections_raised=delib_raised,
              deliberate_rejections_that_returned=sorted({"%s|%s" % (rec["call"], rec["opt"]) for rec in delib if rec["outcome"] != "raised"})[:40],
              large_invocations=nlarge, large_invocations_raised=nlarge_raised,
+             option_vector_invocations=sum(1 for rec in recs if rec["opt"].startswith("ax:")),
+             option_vector_invocations_raised=sorted({"%s|%s|%s" % (rec["call"], rec["opt"], rec["err"][:50]) for rec in recs
+                                                      if rec["opt"].startswith("ax:") and rec["outcome"] == "raised"})[:60],
              exotic_kind_invocations=sum(1 for rec in recs if any(l["kind"] in EXOTIC for l in rec["lay"])))
     never = sorted(k for k, v in completed.items() if v[0] == 0)
     if never:
